@@ -173,3 +173,40 @@ def ok2(r):
     if e is None:
         return True
     return "error" not in e and all(e.get(f) for f in ("db", "calls", "done", "fifo", "req_true", "trail", "final", "no_repeat"))
+
+
+def annotate_watch(recs):
+    """Adds r['watch'] = {conf, asrt, sides}: the clauses the implementation reported as conflicting (EncodeResult
+    events) and registered as negative assertions equal those of the model of the clause constructors
+    (coq/Async/EncoderWatch.v), and the side conditions of watch_created_ok hold."""
+    lines = []
+    for i, r in enumerate(recs):
+        d = r["obs"].get("dump")
+        if d is None or ss.outcome_kind(r["obs"]["outcome"]) not in ("sat", "unsat"):
+            continue
+        # position of every encoder clause (not the root clause, not learnt) among the encoder's clauses
+        pos, k = {}, 0
+        for cid, c in enumerate(d["clauses"]):
+            kind = c["kind"]
+            if kind == "root" or (isinstance(kind, dict) and "learnt" in kind):
+                continue
+            pos[cid] = k
+            k += 1
+        conf = [pos[c] for e in d["events"] if isinstance(e, dict) and "encres" in e for c in e["encres"] if c in pos]
+        asrt = [pos[c] for c in d.get("asserts", []) if c in pos]
+        lines.append(f"watch {i} " + vlib.toks(vlib.tok_universe(r["case"]["u"]), vlib.tok_problem(r["case"]["p"]),
+                                                tok_sevs(d["events"]), vlib.tok_list(conf), vlib.tok_list(asrt)))
+    out = vlib.oracle(lines)
+    for i, v in out.items():
+        r = recs[int(i)]
+        if v.startswith("error"):
+            r["watch"] = {"error": v}
+            continue
+        t = v.split()
+        r["watch"] = {"conf": t[0] == "1", "asrt": t[1] == "1", "sides": t[2] == "1"}
+    return recs
+
+
+def ok_watch(r):
+    w = r.get("watch")
+    return w is None or ("error" not in w and w["conf"] and w["asrt"] and w["sides"])
